@@ -1061,6 +1061,112 @@ def r01_13(ctx, crates=("sonic_rs", "sonic_number"), floor=40):
                 f"{len(good)} discharged + {len(soft)} otherwise guarded of the {want} sites discharged on the audited tree, {len(bad)} unguarded (audited: {max_bad}); {o0['desc']}: {o0['detail']} ({o0['verdict']})") + f" - {why}")
 
 
+def _sym(fn, o, depth=0):
+    """operand as base + constant, base = ('param', n) | ('local', l) | ('call', bb); None if not of that shape"""
+    c = op_int(o)
+    if c is not None:
+        return (None, c)
+    p = op_place(o)
+    if p is None or depth > 20:
+        return None
+    l, proj = p
+    if proj and not (len(proj) == 1 and isinstance(proj[0], list) and proj[0][0] == "." and proj[0][2] == "0"):
+        return None
+    if 1 <= l <= fn.argc and not fn.defs.get(l):
+        return (("param", l), 0)
+    d = fn.single_def(l)
+    if d is None:
+        return (("local", l), 0)
+    if d[0] == "call":
+        return (("call", d[1]), 0)
+    rv = d[3]["rv"]
+    if rv["k"] == "use" or (rv["k"] == "cast" and rv.get("ck") == "IntToInt"):
+        return _sym(fn, rv["op"], depth + 1)
+    if rv["k"] == "binop" and rv["op"].replace("WithOverflow", "") in ("Add", "Sub"):
+        x, y = _sym(fn, rv["a"], depth + 1), _sym(fn, rv["b"], depth + 1)
+        if x is None or y is None:
+            return None
+        sign = 1 if rv["op"].startswith("Add") else -1
+        if y[0] is None:
+            return (x[0], x[1] + sign * y[1])
+        if x[0] is None and sign == 1:
+            return (y[0], x[1] + y[1])
+    return None
+
+
+def r01_4b(ctx):
+    """the snippet of an error message is cut out of the input with a range whose end is provably inside the input: every
+    value given to the range end is len() itself, or the very expression that a dominating comparison showed to be <= len()
+    (respectively one more than an expression shown to be < len())"""
+    prog = ctx.prog()
+    f = prog.find("error::Error::syntax")
+    rng = [(b, i, st) for b, i, st in f.assigns() if st["rv"]["k"] == "agg" and "ops::range::Range" in (st["rv"].get("adt") or "")]
+    if len(rng) != 1:
+        ctx.ob("R01.4b", "snippet-range", False, f.loc(), f"expected one Range construction in Error::syntax, found {len(rng)} (fail closed)")
+        return
+    eo = rng[0][2]["rv"]["f"][1]
+    E = op_local(eo)
+    for _ in range(6):
+        d = f.single_def(E) if E is not None else None
+        if d and d[0] == "stmt" and d[3]["rv"]["k"] == "use" and op_local(d[3]["rv"]["op"]) is not None:
+            E = op_local(d[3]["rv"]["op"])
+        else:
+            break
+    defs = [(b, i, st) for b, i, st in f.assigns() if st["lhs"] == [E, []]]
+    ctx.floor("R01.4b", "assignments to the snippet end", len(defs), 2)
+    lens = {b for b, t in f.calls() if callee_is(t, "len")}
+    k = 0
+    for b, i, st in defs:
+        k += 1
+        rv = st["rv"]
+        v = None
+        if rv["k"] == "use":
+            v = _sym(f, rv["op"])
+        elif rv["k"] == "binop" and rv["op"].replace("WithOverflow", "") in ("Add", "Sub"):
+            x, y = _sym(f, rv["a"]), _sym(f, rv["b"])
+            sign = 1 if rv["op"].startswith("Add") else -1
+            if x is not None and y is not None and y[0] is None:
+                v = (x[0], x[1] + sign * y[1])
+            elif x is not None and y is not None and x[0] is None and sign == 1:
+                v = (y[0], x[1] + y[1])
+        ok = False
+        how = "the assigned value is not of the form base + constant"
+        if v is not None:
+            if v[0] is not None and v[0][0] == "call" and v[0][1] in lens and v[1] == 0:
+                ok, how = True, "end = len()"
+            else:
+                how = f"no dominating comparison of that expression with len()"
+                for bb, ii, ss in f.assigns():
+                    r2 = ss["rv"]
+                    if not (r2["k"] == "binop" and r2["op"] in ("Lt", "Le", "Gt", "Ge")) or not f.dominates(bb, b):
+                        continue
+                    sa, sb_ = _sym(f, r2["a"]), _sym(f, r2["b"])
+                    if sa is None or sb_ is None:
+                        continue
+                    a_len = sa[0] is not None and sa[0][0] == "call" and sa[0][1] in lens and sa[1] == 0
+                    b_len = sb_[0] is not None and sb_[0][0] == "call" and sb_[0][1] in lens and sb_[1] == 0
+                    if a_len == b_len:
+                        continue
+                    x = sb_ if a_len else sa
+                    op = r2["op"] if b_len else {"Lt": "Gt", "Gt": "Lt", "Le": "Ge", "Ge": "Le"}[r2["op"]]  # x op len
+                    from ..analysis import bool_switch_edges
+                    e = bool_switch_edges(f, ss["lhs"][0])
+                    if not e:
+                        continue
+                    t_edge, f_edge = e
+                    on_true = b == t_edge or (f.dominates(t_edge, b) and b not in f.reachable_from(f_edge, avoid={t_edge}))
+                    on_false = b == f_edge or (f.dominates(f_edge, b) and b not in f.reachable_from(t_edge, avoid={f_edge}))
+                    slack = None
+                    if on_true and op == "Lt" or on_false and op == "Ge":
+                        slack = 1    # x < len
+                    elif on_true and op == "Le" or on_false and op == "Gt":
+                        slack = 0    # x <= len
+                    if slack is not None and x[0] == v[0] and v[1] <= x[1] + slack:
+                        ok, how = True, f"end = {'x' if slack == 0 else 'x + 1'} on the edge where x {'<=' if slack == 0 else '<'} len()"
+        ctx.ob("R01.4b", f"snippet-end#{k}", ok, f.loc(st.get("ln")), how if ok else
+               f"the end of the snippet range is assigned a value that no dominating comparison bounds by len() ({how}): slicing the input panics when it lands behind the end")
+
+
 def r01_14(ctx):
     """data borrowed for 'de lives in the caller's buffer: a JsonInput implemented for a reference gives the reader either
     the borrowed bytes themselves or an owner that shares the caller's buffer.  The reader pins what it is given and
@@ -1146,4 +1252,4 @@ def r01_s(ctx):
     ctx.include(c16.r16_6, 'R01.S')
 
 
-RULES = [("R01.1", r01_1), ("R01.2", r01_2), ("R01.2b", r01_2b), ("R01.3", r01_3), ("R01.4", r01_4), ("R01.5", r01_5), ("R01.6", r01_6), ("R01.7", r01_7), ("R01.8", r01_8), ("R01.9", r01_9), ("R01.10", r01_10), ("R01.11", r01_11), ("R01.12", r01_12), ("R01.13", r01_13), ("R01.14", r01_14), ("R01.W", r01_w), ("R01.S", r01_s)]
+RULES = [("R01.1", r01_1), ("R01.2", r01_2), ("R01.2b", r01_2b), ("R01.3", r01_3), ("R01.4", r01_4), ("R01.4b", r01_4b), ("R01.5", r01_5), ("R01.6", r01_6), ("R01.7", r01_7), ("R01.8", r01_8), ("R01.9", r01_9), ("R01.10", r01_10), ("R01.11", r01_11), ("R01.12", r01_12), ("R01.13", r01_13), ("R01.14", r01_14), ("R01.W", r01_w), ("R01.S", r01_s)]
